@@ -12,7 +12,7 @@ use arrow_buffer::{Buffer, ScalarBuffer};
 // (the word formula validity & !(mask & mask_valid)); exact null count. There is no typed core: the
 // formula lives in closures inside the `&dyn Array -> ArrayRef` entry point (to_data / make_array), so
 // the whole kernel has to run.
-// @unit name=nullif_i32_n3 props=C03 kind=bounded bound=rows=3_both_validities_present fns=nullif tier=thorough timeout=900 mem=10 note=not_confirmed_at_checkpoint
+// @unit name=nullif_i32_n3 props=C03 kind=bounded bound=rows=3_both_validities_present fns=nullif timeout=900 mem=10 tier=thorough note=not_confirmed_not_run
 #[kani::proof]
 #[kani::unwind(8)]
 #[kani::stub(alloc::fmt::format, stub_format)]
